@@ -71,7 +71,7 @@ func main() {
 			disk := make([][]*dbm.MemDB, nb)
 			events := make([][]faultdb.Event, nb)
 			for bi, b := range blocks {
-				ms.ApplyWrites(b)
+				ms.ApplyWritesRoute(b, msdrive.RouteOf(bi, b))
 				o.Apply(b)
 				disk[bi] = []*dbm.MemDB{msdrive.CopyMemDB(inner)}
 				db.After = func(idx int, ev faultdb.Event) {
@@ -107,7 +107,7 @@ func main() {
 							next = bi + 1 // fully committed: just go on with the next block
 						}
 						for j := next; j < nb && j <= bi+1; j++ {
-							ms2.ApplyWrites(blocks[j])
+							ms2.ApplyWritesRoute(blocks[j], msdrive.RouteOf(j, blocks[j]))
 							if !commitLine(t, cp, ms2, j, snaps[j+1]) {
 								return
 							}
